@@ -1,10 +1,13 @@
 package main
 
 import (
+	"fmt"
 	"go/ast"
+	"go/constant"
 	"go/token"
 	"go/types"
 	"sort"
+	"strconv"
 	"strings"
 
 	"golang.org/x/tools/go/cfg"
@@ -703,72 +706,47 @@ func c05SortComparator(c *Ctx, rule string) {
 			}
 		}
 	}
-	// DESC negation
+	// DESC negation: the statements that follow the per-type arms are evaluated on the four assignments of
+	// (less, this key is DESC); the comparator must return less XOR desc. How the direction is spelled —
+	// tested in place, resolved up front into a []bool or into a field of a per-key struct — does not matter.
 	key := f.Name + "|desc-negates"
-	okDesc := false
-	sawTest := false
+	dq := newDescQuery(f, cmp)
+	var tail []ast.Stmt
 	ast.Inspect(cmp.Body, func(x ast.Node) bool {
-		ifs, ok := x.(*ast.IfStmt)
-		if !ok {
-			return true
-		}
-		cond := ast.Unparen(ifs.Cond)
-		// the per-key direction may have been resolved up front into a []bool filled in step with the key
-		// positions: `descs = append(descs, spec.OrderingSpecification.Type == sql.DESC)` … `if descs[k]`
-		viaSlice := ""
-		if ix, ok := cond.(*ast.IndexExpr); ok {
-			if sid, ok := ast.Unparen(ix.X).(*ast.Ident); ok {
-				for _, as := range f.assignsTo(f.Decl.Body, f.ObjOf(sid)) {
-					if args, self := f.isSelfAppend(as, f.ObjOf(sid)); self && len(args) == 1 && enclosingLoop(f.Decl.Body, as) != nil {
-						if be2, ok := ast.Unparen(args[0]).(*ast.BinaryExpr); ok && strings.Contains(exprKey(be2.X), "OrderingSpecification") {
-							cond = be2
-							viaSlice = exprKey(ix.Index)
-						}
-					}
+		if blk, ok := x.(*ast.BlockStmt); ok && tail == nil {
+			for i, st := range blk.List {
+				if st == ast.Stmt(sw) {
+					tail = blk.List[i+1:]
 				}
 			}
-		}
-		be, ok := cond.(*ast.BinaryExpr)
-		if !ok {
-			return true
-		}
-		cst := f.namedConst(be.Y)
-		if cst == nil || !strings.Contains(exprKey(be.X), "OrderingSpecification") {
-			return true
-		}
-		sawTest = true
-		negInThen := false
-		for _, st := range ifs.Body.List {
-			if as, ok := st.(*ast.AssignStmt); ok && len(as.Lhs) == 1 && exprKey(as.Lhs[0]) == lessVar && exprKey(as.Rhs[0]) == "!"+lessVar {
-				negInThen = true
-			}
-		}
-		if (cst.Name() == "DESC" && be.Op == token.EQL && negInThen && ifs.Else == nil) || (cst.Name() == "ASC" && be.Op == token.NEQ && negInThen && ifs.Else == nil) {
-			okDesc = true
-		}
-		// the ordering consulted is that of the key being compared
-		keyVar := ""
-		ast.Inspect(cmp.Body, func(z ast.Node) bool {
-			if rs, ok := z.(*ast.RangeStmt); ok && keyVar == "" {
-				if k, ok := rs.Key.(*ast.Ident); ok {
-					keyVar = k.Name
-				}
-			}
-			return true
-		})
-		if viaSlice != "" {
-			if viaSlice != keyVar {
-				okDesc = false
-			}
-		} else if !strings.Contains(exprKey(be.X), "["+keyVar+"]") {
-			okDesc = false
 		}
 		return true
 	})
-	if !sawTest {
-		c.Undecided(rule, key, "the comparator does not test the ordering specification in a form the rule knows")
+	verdict, why := "", ""
+	if lessVar == "" || len(tail) == 0 {
+		verdict, why = "undecided", "the comparator does not end in statements that return the per-type result"
 	} else {
-		c.Check(okDesc, rule, key, cmp.Pos(), "negated exactly when the current key's ordering is DESC", "the comparison result is not negated exactly for DESC keys (of the key being compared)")
+		for _, L := range []bool{false, true} {
+			for _, D := range []bool{false, true} {
+				got, st := dq.run(tail, lessVar, L, D)
+				switch {
+				case st == "unknown" && verdict == "":
+					verdict, why = "undecided", "the comparator does not test the ordering specification in a form the rule knows"
+				case st == "wrongkey":
+					verdict, why = "fail", "the ordering consulted is not that of the key being compared"
+				case st == "" && got != (L != D) && verdict != "fail":
+					verdict, why = "fail", "the comparison result is not negated exactly for DESC keys (of the key being compared)"
+				}
+			}
+		}
+	}
+	switch verdict {
+	case "undecided":
+		c.Undecided(rule, key, "%s", why)
+	case "fail":
+		c.Fail(rule, key, cmp.Pos(), "%s", why)
+	default:
+		c.OK(rule, key, cmp.Pos(), 4, "negated exactly when the current key's ordering is DESC")
 	}
 	// equal keys continue; result returned per key
 	key = f.Name + "|equal-keys-fall-through"
@@ -1577,33 +1555,97 @@ func c07GroupKey(c *Ctx, rule string) {
 	if f == nil {
 		return
 	}
-	var keyLit *ast.FuncLit
-	for _, l := range f.FuncLits() {
-		keyLit = l
-		break
-	}
 	key := f.Name + "|group-key"
-	if keyLit == nil {
-		c.Undecided(rule, key, "no group-key closure found")
-	} else {
-		sp := f.Calls(keyLit.Body, false, "fmt.Sprintf")
-		if len(sp) != 1 {
-			c.Undecided(rule, key, "group key is not built with one fmt.Sprintf")
-		} else {
-			format := ""
-			if cv := f.constOf(sp[0].Args[0]); cv != nil {
-				format = cv.ExactString()
+	// the group key is whatever text the grouping values (elements of a row's Vals) are rendered into, in
+	// aggregateRows itself, its closures, or a helper it calls: every such rendering is examined
+	type site struct {
+		fn     *Func
+		call   *ast.CallExpr
+		format string
+		known  bool
+	}
+	var sites []site
+	var plain []ast.Node
+	isVal := func(g *Func, e ast.Expr) bool {
+		ix, ok := ast.Unparen(e).(*ast.IndexExpr)
+		if !ok {
+			return false
+		}
+		sel, ok := ast.Unparen(ix.X).(*ast.SelectorExpr)
+		return ok && sel.Sel.Name == "Vals"
+	}
+	scan := func(g *Func) {
+		ast.Inspect(g.Decl.Body, func(x ast.Node) bool {
+			call, ok := x.(*ast.CallExpr)
+			if !ok {
+				return true
 			}
-			quoting := strings.Contains(format, "%#v") // %q would render integers as character literals
-			rest := strings.NewReplacer("%q", "", "%#v", "", "%v", "", "%s", "", "%d", "", "\"", "").Replace(format)
+			fa := -1
+			switch {
+			case g.CallIs(call, "fmt.Sprintf"):
+				fa = 0
+			case g.CallIs(call, "fmt.Fprintf", "fmt.Appendf"):
+				fa = 1
+			case g.CallIs(call, "fmt.Sprint", "fmt.Sprintln", "fmt.Fprint", "fmt.Fprintln", "fmt.Append", "fmt.Appendln"):
+				for _, a := range call.Args {
+					if isVal(g, a) {
+						plain = append(plain, call)
+					}
+				}
+				return true
+			default:
+				return true
+			}
+			if len(call.Args) <= fa {
+				return true
+			}
+			uses := false
+			for _, a := range call.Args[fa+1:] {
+				if isVal(g, a) {
+					uses = true
+				}
+			}
+			if !uses {
+				return true
+			}
+			st := site{fn: g, call: call}
+			if cv := g.constOf(call.Args[fa]); cv != nil && cv.Kind() == constant.String {
+				st.format, st.known = constant.StringVal(cv), true
+			}
+			sites = append(sites, st)
+			return true
+		})
+	}
+	scan(f)
+	for _, g := range sortedFuncs(c.W.CG().Reach(f)) {
+		if g != f && g.Pkg == f.Pkg && !strings.HasPrefix(g.Name, "engine.project") && g.Name != "engine.evaluate" {
+			if _, pinned := pinnedFuncs[g.Name]; !pinned {
+				scan(g)
+			}
+		}
+	}
+	switch {
+	case len(plain) > 0:
+		c.Fail(rule, key, plain[0].Pos(), "a grouping value is rendered with a Print-style call (no quoting of strings, no delimiter of its own): ('x,','y') and ('x',',y'), (1,23) and (12,3), or NULL and the string '<nil>' produce the same key and their groups merge")
+	case len(sites) == 0:
+		c.Undecided(rule, key, "no rendering of a grouping value (fmt.Sprintf/Fprintf over an element of Vals) found in aggregateRows or its helpers")
+	default:
+		for _, st := range sites {
+			if !st.known {
+				c.Undecided(rule, key, "the format of a group-key rendering is not a constant")
+				continue
+			}
+			format := strconv.Quote(st.format)
+			quoting := strings.Contains(st.format, "%#v") // %q would render integers as character literals
+			rest := strings.NewReplacer("%q", "", "%#v", "", "%v", "", "%s", "", "%d", "").Replace(st.format)
 			delimited := len(rest) > 0
 			switch {
 			case !quoting:
-				c.Fail(rule, key, sp[0].Pos(), "group-key fragments are rendered with format %s: string values are not quoted, so ('x,','y') and ('x',',y'), (1,23) and (12,3), or NULL and the string '<nil>' produce the same key and their groups merge", format)
+				c.Fail(rule, key, st.call.Pos(), "group-key fragments are rendered with format %s: string values are not quoted, so ('x,','y') and ('x',',y'), (1,23) and (12,3), or NULL and the string '<nil>' produce the same key and their groups merge", format)
 			case !delimited:
-				c.Fail(rule, key, sp[0].Pos(), "group-key fragments (format %s) are concatenated without a delimiter: (1,23) and (12,3) merge", format)
+				c.Fail(rule, key, st.call.Pos(), "group-key fragments (format %s) are concatenated without a delimiter: (1,23) and (12,3) merge", format)
 			default:
-				c.OK(rule, key, sp[0].Pos(), 1, "fragments %s are quoted and delimited", format)
+				c.OK(rule, key, st.call.Pos(), 1, "fragments %s are quoted and delimited", format)
 			}
 		}
 	}
@@ -1682,40 +1724,36 @@ func c07Seeds(c *Ctx, rule string) {
 		if arm == nil {
 			c.Undecided(rule, key, "COUNT seeding arm not found")
 		} else {
-			// appended variable declared in the arm with 0
-			var seed string
-			ast.Inspect(arm, func(y ast.Node) bool {
-				if call, ok := y.(*ast.CallExpr); ok {
-					if id, ok := call.Fun.(*ast.Ident); ok && id.Name == "append" && len(call.Args) == 2 {
-						seed = exprKey(call.Args[1])
-					}
-				}
-				return true
-			})
-			declared := false
-			for _, st := range arm.Body {
-				if as, ok := st.(*ast.AssignStmt); ok && as.Tok == token.DEFINE && exprKey(as.Lhs[0]) == seed {
-					if cv := f.constOf(as.Rhs[0]); cv != nil && cv.String() == "0" {
-						declared = true
+			// the arm is evaluated on the three cases (COUNT(*); COUNT(col) with the column NULL; … not NULL):
+			// what it appends must be 1, 0, 1 — however the seed is spelled (0 raised to 1, or 1 lowered to 0)
+			verdict, why := "", ""
+			for _, cs := range []struct {
+				hasCol, isNull bool
+				want           int64
+				what           string
+			}{{false, false, 1, "COUNT(*)"}, {true, true, 0, "COUNT(col) on a NULL value"}, {true, false, 1, "COUNT(col) on a value"}} {
+				got, st := runSeedArm(f, arm.Body, cs.hasCol, cs.isNull)
+				switch {
+				case st == "outer":
+					verdict, why = "fail", "the COUNT seed is not initialised inside the COUNT arm: with several COUNT columns a later COUNT(col) inherits the previous column's seed and counts NULLs"
+				case st != "" && verdict == "":
+					verdict, why = "undecided", "the COUNT arm is not in a form the rule can evaluate ("+st+")"
+				case st == "" && got != cs.want && verdict != "fail":
+					verdict = "fail"
+					if cs.hasCol && cs.isNull {
+						why = "COUNT(col) does not test the column value against NULL (or counts a NULL as 1)"
+					} else {
+						why = fmt.Sprintf("the COUNT seed for %s is %d, not %d", cs.what, got, cs.want)
 					}
 				}
 			}
-			nonNull := false
-			ast.Inspect(arm, func(y ast.Node) bool {
-				if ifs, ok := y.(*ast.IfStmt); ok {
-					if be, ok := ast.Unparen(ifs.Cond).(*ast.BinaryExpr); ok && be.Op == token.NEQ && isNilIdent(f, be.Y) && strings.HasPrefix(exprKey(be.X), "row.Vals[") {
-						nonNull = true
-					}
-				}
-				return true
-			})
-			switch {
-			case !declared:
-				c.Fail(rule, key, arm.Pos(), "the COUNT seed %s is not initialised to 0 inside the COUNT arm: with several COUNT columns a later COUNT(col) inherits the previous column's seed and counts NULLs", seed)
-			case !nonNull:
-				c.Fail(rule, key, arm.Pos(), "COUNT(col) does not test the column value against NULL")
+			switch verdict {
+			case "fail":
+				c.Fail(rule, key, arm.Pos(), "%s", why)
+			case "undecided":
+				c.Undecided(rule, key, "%s", why)
 			default:
-				c.OK(rule, key, arm.Pos(), 2, "seed reset per COUNT column; COUNT(col) counts non-NULL values only")
+				c.OK(rule, key, arm.Pos(), 3, "seed reset per COUNT column; COUNT(*) seeds 1, COUNT(col) seeds 1 exactly for a non-NULL value")
 			}
 		}
 	}
@@ -1770,4 +1808,449 @@ func isCommaOK(f *Func, id *ast.Ident) bool {
 		return true
 	})
 	return found
+}
+
+
+// descQuery recognises, inside a sort comparator, the expressions that mean "the key being compared is
+// DESC" (polarity true) or "… is ASC" (polarity false), and evaluates the comparator's tail.
+type descQuery struct {
+	f      *Func
+	cmp    *ast.FuncLit
+	keyIdx types.Object // range key of the comparator's loop over the sort keys
+	keyVal types.Object // range value
+}
+
+func newDescQuery(f *Func, cmp *ast.FuncLit) *descQuery {
+	q := &descQuery{f: f, cmp: cmp}
+	ast.Inspect(cmp.Body, func(z ast.Node) bool {
+		if rs, ok := z.(*ast.RangeStmt); ok && q.keyIdx == nil && q.keyVal == nil {
+			if k, ok := rs.Key.(*ast.Ident); ok && k.Name != "_" {
+				q.keyIdx = f.ObjOf(k)
+			}
+			if v, ok := rs.Value.(*ast.Ident); ok && v.Name != "_" {
+				q.keyVal = f.ObjOf(v)
+			}
+		}
+		return true
+	})
+	return q
+}
+
+// direct reports whether e compares an ordering specification with DESC / ASC: (isDesc polarity, recognised)
+func (q *descQuery) direct(e ast.Expr) (bool, bool) {
+	be, ok := ast.Unparen(e).(*ast.BinaryExpr)
+	if !ok || (be.Op != token.EQL && be.Op != token.NEQ) {
+		return false, false
+	}
+	x, y := be.X, be.Y
+	cst := q.f.namedConst(y)
+	if cst == nil {
+		cst = q.f.namedConst(x)
+		x = y
+	}
+	if cst == nil || !strings.Contains(exprKey(x), "OrderingSpecification") {
+		return false, false
+	}
+	switch cst.Name() {
+	case "DESC":
+		return be.Op == token.EQL, true
+	case "ASC":
+		return be.Op == token.NEQ, true
+	}
+	return false, false
+}
+
+func (q *descQuery) mentions(e ast.Expr, obj types.Object) bool {
+	hit := false
+	ast.Inspect(e, func(n ast.Node) bool {
+		if id, ok := n.(*ast.Ident); ok && obj != nil && q.f.ObjOf(id) == obj {
+			hit = true
+		}
+		return true
+	})
+	return hit
+}
+
+// desc classifies e: status "" with the polarity (true: e holds iff the key is DESC), "wrongkey" when e is a
+// direction but of another key than the one being compared, "unknown" otherwise.
+func (q *descQuery) desc(e ast.Expr, depth int) (bool, string) {
+	f := q.f
+	e = ast.Unparen(e)
+	if depth > 4 {
+		return false, "unknown"
+	}
+	if u, ok := e.(*ast.UnaryExpr); ok && u.Op == token.NOT {
+		p, st := q.desc(u.X, depth+1)
+		return !p, st
+	}
+	if pol, ok := q.direct(e); ok {
+		// ssl[k].OrderingSpecification.Type == DESC with k the loop's key, or spec.… with spec the loop's value
+		if q.mentions(e, q.keyIdx) || q.mentions(e, q.keyVal) {
+			return pol, ""
+		}
+		return pol, "wrongkey"
+	}
+	switch x := e.(type) {
+	case *ast.Ident:
+		if rhs, _, ok := f.definedBy(q.cmp.Body, f.ObjOf(x)); ok && rhs != nil {
+			return q.desc(rhs, depth+1)
+		}
+	case *ast.IndexExpr:
+		// descs[k]: a []bool filled in step with the key positions
+		sid, ok := ast.Unparen(x.X).(*ast.Ident)
+		if !ok {
+			break
+		}
+		for _, as := range f.assignsTo(f.Decl.Body, f.ObjOf(sid)) {
+			if args, self := f.isSelfAppend(as, f.ObjOf(sid)); self && len(args) == 1 && enclosingLoop(f.Decl.Body, as) != nil {
+				if pol, ok := q.direct(args[0]); ok {
+					if id, ok := ast.Unparen(x.Index).(*ast.Ident); ok && q.keyIdx != nil && f.ObjOf(id) == q.keyIdx {
+						return pol, ""
+					}
+					return pol, "wrongkey"
+				}
+			}
+		}
+	case *ast.SelectorExpr:
+		// key.desc: a field of the per-key struct the comparator ranges over; every literal of that struct sets
+		// the field from the direction of the specification it is built for
+		sel := f.Pkg.TypesInfo.Selections[x]
+		if sel == nil || sel.Kind() != types.FieldVal {
+			break
+		}
+		fld, _ := sel.Obj().(*types.Var)
+		pol, seen, bad := false, 0, false
+		for _, g := range f.w.Funcs {
+			if g.Pkg != f.Pkg {
+				continue
+			}
+			ast.Inspect(g.Decl.Body, func(n ast.Node) bool {
+				lit, ok := n.(*ast.CompositeLit)
+				if !ok {
+					return true
+				}
+				st, ok := g.TypeOf(lit).Underlying().(*types.Struct)
+				if !ok {
+					return true
+				}
+				has := false
+				for i := 0; i < st.NumFields(); i++ {
+					if st.Field(i) == fld {
+						has = true
+					}
+				}
+				if !has {
+					return true
+				}
+				v := kvField(lit, fld.Name())
+				if v == nil {
+					bad = true
+					return true
+				}
+				dq := &descQuery{f: g}
+				p, ok := dq.direct(v)
+				if !ok || (seen > 0 && p != pol) {
+					bad = true
+					return true
+				}
+				pol = p
+				seen++
+				return true
+			})
+		}
+		// stores into the field outside literals make it unknown
+		for _, g := range f.w.Funcs {
+			if g.Pkg != f.Pkg {
+				continue
+			}
+			ast.Inspect(g.Decl.Body, func(n ast.Node) bool {
+				if as, ok := n.(*ast.AssignStmt); ok {
+					for _, l := range as.Lhs {
+						if s2, ok := ast.Unparen(l).(*ast.SelectorExpr); ok {
+							if ss := g.Pkg.TypesInfo.Selections[s2]; ss != nil && ss.Obj() == types.Object(fld) {
+								bad = true
+							}
+						}
+					}
+				}
+				return true
+			})
+		}
+		if bad || seen == 0 {
+			break
+		}
+		if id, ok := ast.Unparen(x.X).(*ast.Ident); ok && q.keyVal != nil && f.ObjOf(id) == q.keyVal {
+			return pol, ""
+		}
+		if ix, ok := ast.Unparen(x.X).(*ast.IndexExpr); ok {
+			if id, ok := ast.Unparen(ix.Index).(*ast.Ident); ok && q.keyIdx != nil && f.ObjOf(id) == q.keyIdx {
+				return pol, ""
+			}
+		}
+		return pol, "wrongkey"
+	}
+	return false, "unknown"
+}
+
+// run executes the comparator's tail with less = L and "this key is DESC" = D and returns what it returns.
+func (q *descQuery) run(stmts []ast.Stmt, lessVar string, L, D bool) (bool, string) {
+	env := map[string]bool{lessVar: L}
+	var eval func(e ast.Expr) (bool, string)
+	eval = func(e ast.Expr) (bool, string) {
+		e = ast.Unparen(e)
+		if p, st := q.desc(e, 0); st != "unknown" {
+			return p == D, st
+		}
+		switch x := e.(type) {
+		case *ast.Ident:
+			if v, ok := env[x.Name]; ok {
+				return v, ""
+			}
+			if x.Name == "true" || x.Name == "false" {
+				return x.Name == "true", ""
+			}
+		case *ast.UnaryExpr:
+			if x.Op == token.NOT {
+				v, st := eval(x.X)
+				return !v, st
+			}
+		case *ast.BinaryExpr:
+			a, s1 := eval(x.X)
+			b, s2 := eval(x.Y)
+			if s1 != "" {
+				return false, s1
+			}
+			if s2 != "" {
+				return false, s2
+			}
+			switch x.Op {
+			case token.EQL:
+				return a == b, ""
+			case token.NEQ:
+				return a != b, ""
+			case token.LAND:
+				return a && b, ""
+			case token.LOR:
+				return a || b, ""
+			}
+		}
+		return false, "unknown"
+	}
+	var exec func(list []ast.Stmt) (bool, bool, string) // value, returned, status
+	exec = func(list []ast.Stmt) (bool, bool, string) {
+		for _, st := range list {
+			switch s := st.(type) {
+			case *ast.ReturnStmt:
+				if len(s.Results) != 1 {
+					return false, true, "unknown"
+				}
+				v, status := eval(s.Results[0])
+				return v, true, status
+			case *ast.AssignStmt:
+				if len(s.Lhs) != 1 || len(s.Rhs) != 1 {
+					return false, true, "unknown"
+				}
+				id, ok := s.Lhs[0].(*ast.Ident)
+				if !ok {
+					return false, true, "unknown"
+				}
+				if _, st := q.desc(s.Rhs[0], 0); st != "unknown" && s.Tok == token.DEFINE {
+					continue // a local naming the direction: resolved where it is used
+				}
+				v, status := eval(s.Rhs[0])
+				if status != "" {
+					return false, true, status
+				}
+				env[id.Name] = v
+			case *ast.IfStmt:
+				if s.Init != nil {
+					return false, true, "unknown"
+				}
+				cv, status := eval(s.Cond)
+				if status != "" {
+					return false, true, status
+				}
+				var branch []ast.Stmt
+				if cv {
+					branch = s.Body.List
+				} else if s.Else != nil {
+					if b, ok := s.Else.(*ast.BlockStmt); ok {
+						branch = b.List
+					} else {
+						branch = []ast.Stmt{s.Else}
+					}
+				}
+				if v, ret, status := exec(branch); ret || status != "" {
+					return v, ret, status
+				}
+			case *ast.EmptyStmt:
+			default:
+				return false, true, "unknown"
+			}
+		}
+		return false, false, ""
+	}
+	v, ret, status := exec(stmts)
+	if status == "" && !ret {
+		return false, "unknown"
+	}
+	return v, status
+}
+
+
+// runSeedArm executes the statements of the COUNT seeding arm with "the argument is a column reference" =
+// hasCol and "that column's value in this row is NULL" = isNull, and returns the value it appends.
+// status: "" ok, "outer" when the appended variable is not defined inside the arm, else a reason.
+func runSeedArm(f *Func, stmts []ast.Stmt, hasCol, isNull bool) (int64, string) {
+	ints := map[types.Object]int64{}
+	var result *int64
+	atom := func(e ast.Expr) (bool, bool) {
+		e = ast.Unparen(e)
+		switch x := e.(type) {
+		case *ast.Ident:
+			if isCommaOK(f, x) {
+				return hasCol, true
+			}
+		case *ast.BinaryExpr:
+			if (x.Op == token.EQL || x.Op == token.NEQ) && (isNilIdent(f, x.Y) || isNilIdent(f, x.X)) {
+				v := x.X
+				if isNilIdent(f, x.X) {
+					v = x.Y
+				}
+				txt := f.provenanceText(v)
+				if strings.Contains(txt, ".Vals[") {
+					return isNull == (x.Op == token.EQL), true
+				}
+			}
+		}
+		return false, false
+	}
+	var evalB func(e ast.Expr) (bool, bool)
+	evalB = func(e ast.Expr) (bool, bool) {
+		e = ast.Unparen(e)
+		if v, ok := atom(e); ok {
+			return v, true
+		}
+		switch x := e.(type) {
+		case *ast.UnaryExpr:
+			if x.Op == token.NOT {
+				v, ok := evalB(x.X)
+				return !v, ok
+			}
+		case *ast.BinaryExpr:
+			if x.Op == token.LAND || x.Op == token.LOR {
+				a, ok1 := evalB(x.X)
+				// short circuit: the right operand may be meaningless when the left one decides
+				if ok1 && x.Op == token.LAND && !a {
+					return false, true
+				}
+				if ok1 && x.Op == token.LOR && a {
+					return true, true
+				}
+				b, ok2 := evalB(x.Y)
+				if !ok1 || !ok2 {
+					return false, false
+				}
+				if x.Op == token.LAND {
+					return a && b, true
+				}
+				return a || b, true
+			}
+		}
+		return false, false
+	}
+	evalI := func(e ast.Expr) (int64, string) {
+		e = ast.Unparen(f.stripConv(e))
+		if cv := f.constOf(e); cv != nil {
+			if n, ok := constant.Int64Val(constant.ToInt(cv)); ok {
+				return n, ""
+			}
+		}
+		if id, ok := e.(*ast.Ident); ok {
+			if n, ok := ints[f.ObjOf(id)]; ok {
+				return n, ""
+			}
+			if _, isVar := f.ObjOf(id).(*types.Var); isVar {
+				return 0, "outer"
+			}
+		}
+		return 0, "the appended value " + exprKey(e) + " is not a constant selection"
+	}
+	var exec func(list []ast.Stmt) string
+	exec = func(list []ast.Stmt) string {
+		for _, st := range list {
+			if result != nil {
+				return ""
+			}
+			switch s := st.(type) {
+			case *ast.AssignStmt:
+				// the append
+				done := false
+				for _, r := range s.Rhs {
+					if call, ok := ast.Unparen(r).(*ast.CallExpr); ok {
+						if id, ok := call.Fun.(*ast.Ident); ok && id.Name == "append" && len(call.Args) == 2 {
+							n, status := evalI(call.Args[1])
+							if status != "" {
+								return status
+							}
+							result = &n
+							done = true
+						}
+					}
+				}
+				if done {
+					continue
+				}
+				if len(s.Lhs) == 1 && len(s.Rhs) == 1 {
+					if id, ok := s.Lhs[0].(*ast.Ident); ok {
+						if b, isB := f.TypeOf(id).Underlying().(*types.Basic); isB && b.Info()&types.IsInteger != 0 {
+							if cv := f.constOf(f.stripConv(s.Rhs[0])); cv != nil {
+								if n, ok := constant.Int64Val(constant.ToInt(cv)); ok {
+									ints[f.ObjOf(id)] = n
+									continue
+								}
+							}
+							if _, tracked := ints[f.ObjOf(id)]; tracked {
+								return "the seed is assigned " + exprKey(s.Rhs[0])
+							}
+						}
+					}
+				}
+				// other definitions (idx := lookup[colRef], colRef, hasColRef := …) do not matter
+			case *ast.IfStmt:
+				cv, ok := evalB(s.Cond)
+				if !ok {
+					return "condition " + exprKey(s.Cond)
+				}
+				var branch []ast.Stmt
+				if cv {
+					branch = s.Body.List
+				} else if s.Else != nil {
+					if b, ok := s.Else.(*ast.BlockStmt); ok {
+						branch = b.List
+					} else {
+						branch = []ast.Stmt{s.Else}
+					}
+				}
+				if status := exec(branch); status != "" {
+					return status
+				}
+			case *ast.BlockStmt:
+				if status := exec(s.List); status != "" {
+					return status
+				}
+			case *ast.DeclStmt, *ast.EmptyStmt, *ast.ExprStmt:
+			default:
+				return fmt.Sprintf("statement %T", st)
+			}
+		}
+		return ""
+	}
+	if status := exec(stmts); status != "" {
+		return 0, status
+	}
+	if result == nil {
+		return 0, "nothing is appended"
+	}
+	return *result, ""
 }
